@@ -45,7 +45,9 @@ RULE = ('Hypothesis-generated cases: 1-6 static-registration files forming an in
         'placed in 1-4 places of the grid {cwd, 1-3 registered locations (absolute or relative '
         'prefixes), one unregistered dir} x {open, package reader, 1-3 registered in-memory '
         'readers, one unregistered reader, entries the reader\'s own predicate denies}, each '
-        'place holding a distinct content; optionally one file is unreadable everywhere (decoys '
+        'place holding a distinct content; in 0-2 further locations the name exists as a '
+        'DIRECTORY (unreadable: the search must go on); '
+        'optionally one file is unreadable everywhere (decoys '
         'only) and one statement targets an unknown configurable/module; entry point in '
         '{parse_config, parse_config_file, parse_config_files_and_bindings (0-3 files, extra '
         'bindings, finalize_config default/False/True)} x skip_unknown {not passed, True, False}; '
@@ -66,6 +68,8 @@ ASSUMPTIONS = [
     'check ran exactly once and saw the final config, and a further bind_parameter is refused; '
     'this also holds when there is nothing to parse (no files, no bindings)',
     'static registration only (dynamic-registration files belong to C19)',
+    'a directory carrying the name is not a file anybody can read: resolution continues with the '
+    'next reader / location, and if nothing else holds the name it is "a name nobody can read"',
     'a search location is a path prefix joined to the name with "/"; the current directory is the '
     'empty prefix and precedes every added location; readers are tried in registration order '
     'after the built-in file reader and the package reader registered by `import gin`',
@@ -98,7 +102,9 @@ FLOORS = {
     'default-skip-with-unknown:config': 0.01, 'default-skip-with-unknown:file': 0.01,
     'default-skip-with-unknown:multi': 0.01, 'missing:abs-direct': 0.003,
     'nspath:namespace-dir-consulted': 0.05, 'selected:custom-reader': 0.05,
-    'unknown:in-extra-bindings,skipped': 0.004, 'unknown:skipped': 0.02,
+    'dir:before-real-file,direct': 0.01, 'dir:before-real-file,included': 0.01,
+    'dir:and-no-real-file': 0.01, 'unknown:in-extra-bindings,skipped': 0.004,
+    'unknown:skipped': 0.02,
     'multi:nothing-to-parse,finalize-default': 0.004, 'args:multi-finalize-positional-False': 0.02,
     'args:multi-skip-positional': 0.03, 'args:skip-positional': 0.05,
     'after:nothing-to-parse,finalize-default': 0.03, 'ns:file-only-in-later-portion': 0.015,
@@ -180,6 +186,8 @@ def _file():
       'at': _small,
       'stmts': st.integers(0, 6).flatmap(lambda k: st.lists(_stmt(), min_size=k, max_size=6)),
       'places': st.integers(1, 4).flatmap(lambda k: st.lists(place, min_size=k, max_size=4)),
+      'dirs': st.one_of(st.just([]), st.just([]),
+                        st.lists(st.sampled_from([0, 0, 1, 2, 3, 4]), min_size=1, max_size=2)),
   })
 
 
@@ -360,8 +368,26 @@ class Model:
           self.nsf[(1 + i % 2, name.rsplit('/', 1)[1])] = (content, tag)
         elif key is not None:
           self.sysf[key] = (content, tag)
+        elif f.get('dirs') and f['kind'] != 'abs':
+          # a directory of that name will sit in an earlier place: keep the file in the last one
+          self.disk[self._abs(_join(self.prefixes[nloc], name))] = (content, tag)
         else:
           self.disk[self._abs(name)] = (content, tag)
+    # directories carrying the name of a file: nobody can read them, the search goes on
+    self.dirs = {}                 # absolute path -> None
+    self.dir_locs = {}             # file -> registered location indexes holding such a directory
+    for i, f in enumerate(self.case['files']):
+      if self.entry == 'config' and i == 0:
+        continue
+      for loc in f.get('dirs', ()):
+        l = loc % (nloc + 2)
+        prefix = self.prefixes[l] if l <= nloc else self.unregistered_prefix
+        path = self._abs(_join(prefix, self.names[i]))
+        if path in self.disk:
+          continue
+        self.dirs[path] = None
+        if l <= nloc:
+          self.dir_locs.setdefault(i, set()).add(0 if f['kind'] == 'abs' else l)
 
   def _abs(self, path):
     return path if path.startswith('/') else self.cwd + '/' + path
@@ -475,6 +501,14 @@ class Model:
   def _file(self, i):
     cands = self.candidates(self.names[i])
     self.resolved.append((i, cands[0] if cands else None))
+    dir_locs = self.dir_locs.get(i, ())
+    if dir_locs:
+      self.labels.add('dir:name-is-a-directory-somewhere')
+      if not cands:
+        self.labels.add('dir:and-no-real-file')
+      elif any(l < cands[0][0] or (l == cands[0][0] and cands[0][1] > 0) for l in dir_locs):
+        self.labels.add('dir:before-real-file')
+        self.labels.add('dir:before-real-file,' + ('included' if self.stack else 'direct'))
     if not cands:
       raise _Fault('missing', i)
     l0, r0, tag = cands[0]
@@ -592,6 +626,9 @@ def _materialise(m):
           f.write('')
     with open(d + '/' + fname, 'w') as f:
       f.write(content)
+  for path in m.dirs:
+    if not os.path.exists(path):
+      os.makedirs(path)
   # the namespace package: plain directories only; `nsdirs` adds portions that hold no file
   nsdir = '/' + NS_PKG.replace('.', '/')
   if any(f['kind'] == 'ns' for f in m.case['files']):
